@@ -163,6 +163,41 @@ theorem callFn_count_nodes (fi : Plan) (c : Ref) (l : List Ref) :
     callFn (F := F) d cfg "count" fi c [.ok (.nodes l)] none = .ok (.num (ofNat l.length)) := by
   simp [callFn, bind, Except.bind]
 
+theorem callFn_sum_nodes (fi : Plan) (c : Ref) (l : List Ref) :
+    callFn (F := F) d cfg "sum" fi c [.ok (.nodes l)] none =
+      .ok (.num (l.foldl (fun acc r =>
+        if isNaN (goParseFloat (F := F) (stringValue d r)) = true then acc
+        else add acc (goParseFloat (stringValue d r))) (ofNat 0))) := by
+  simp [callFn, bind, Except.bind]
+
+/-- a fold that skips the NaN summands is the plain fold when no summand is NaN -/
+theorem foldl_skipNaN {α : Type} (v : α → F) (l : List α) (h : ∀ r ∈ l, isNaN (v r) = false) (acc : F) :
+    l.foldl (fun acc r => if isNaN (v r) = true then acc else add acc (v r)) acc =
+      l.foldl (fun acc r => add acc (v r)) acc := by
+  induction l generalizing acc with
+  | nil => rfl
+  | cons a t ih =>
+    simp only [List.foldl_cons, h a List.mem_cons_self, Bool.false_eq_true, ↓reduceIte]
+    exact ih (fun r hr => h r (List.mem_cons_of_mem _ hr)) _
+
+/-- Go's `sum` callback (skip the nodes whose text does not parse) computes the oracle's
+`sumNodes` on a list of numeric nodes: same additions, same operands, same order -/
+theorem sum_skip_eq_sumNodes (l : List Ref)
+    (h : l.any (fun r => isNaN (Spec.strToNum (F := F) (stringValue d r))) = false) :
+    l.foldl (fun acc r =>
+        if isNaN (goParseFloat (F := F) (stringValue d r)) = true then acc
+        else add acc (goParseFloat (stringValue d r))) (ofNat 0) = Spec.sumNodes (F := F) d l := by
+  unfold Spec.sumNodes
+  simp only [goParseFloat]
+  apply foldl_skipNaN (fun r => Spec.strToNum (F := F) (stringValue d r))
+  intro r hr
+  cases hn : isNaN (Spec.strToNum (F := F) (stringValue d r)) with
+  | false => rfl
+  | true =>
+    have : l.any (fun r => isNaN (Spec.strToNum (F := F) (stringValue d r))) = true :=
+      List.any_eq_true.2 ⟨r, hr, hn⟩
+    rw [h] at this; cases this
+
 end ModelSide
 
 /-! ## oracle side -/
@@ -250,25 +285,53 @@ theorem spec_count (ctx : Spec.Ctx) (l : List Ref) :
   unfold Spec.callFn Spec.callFn.match_3
   simp only [String.reduceEq, ↓reduceDIte]
 
+theorem spec_sum_eq (ctx : Spec.Ctx) (l : List Ref) :
+    Spec.callFn (F := F) d ctx "sum" [.nodes l] =
+      if l.any (fun r => isNaN (Spec.strToNum (F := F) (stringValue d r))) = true then
+        .error (.unsupported "sum over non-numeric nodes")
+      else .ok (.num (Spec.sumNodes d l)) := by
+  unfold Spec.callFn Spec.callFn.match_3
+  simp only [String.reduceEq, ↓reduceDIte]
+
+theorem spec_sum (ctx : Spec.Ctx) (l : List Ref)
+    (h : l.any (fun r => isNaN (Spec.strToNum (F := F) (stringValue d r))) = false) :
+    Spec.callFn (F := F) d ctx "sum" [.nodes l] = .ok (.num (Spec.sumNodes d l)) := by
+  rw [spec_sum_eq, h]; rfl
+
+theorem spec_sum_nonnumeric (ctx : Spec.Ctx) (l : List Ref)
+    (h : l.any (fun r => isNaN (Spec.strToNum (F := F) (stringValue d r))) = true) :
+    Spec.callFn (F := F) d ctx "sum" [.nodes l] = .error (.unsupported "sum over non-numeric nodes") := by
+  rw [spec_sum_eq, h]; rfl
+
+/-- if the oracle's `sum` speaks on a node list, every node of the list is numeric -/
+theorem spec_sum_inv (ctx : Spec.Ctx) (l : List Ref) (w : Spec.Value F)
+    (h : Spec.callFn (F := F) d ctx "sum" [.nodes l] = .ok w) :
+    l.any (fun r => isNaN (Spec.strToNum (F := F) (stringValue d r))) = false := by
+  cases hn : l.any (fun r => isNaN (Spec.strToNum (F := F) (stringValue d r))) with
+  | false => rfl
+  | true => rw [spec_sum_nonnumeric d ctx l hn] at h; cases h
+
 end SpecSide
 
 /-! ## the fragment -/
 
-/-- Arithmetic expressions.  `CP p` says which `count(p)` arguments are admitted, `MP a b` which
-`a mod b` (the oracle speaks for `mod` only on a sub-domain, and `count` needs the *length* of the
-node list); both are discharged by the instances below. -/
-inductive NumEG (CP : Ast → Prop) (MP : Ast → Ast → Prop) : Ast → Prop
-  | num (l : String) : NumEG CP MP (.num l)
-  | arith (op : String) (a b : Ast) : op ∈ arithOps → NumEG CP MP a → NumEG CP MP b →
-      NumEG CP MP (.oper op a b)
-  | mod (a b : Ast) : NumEG CP MP a → NumEG CP MP b → MP a b → NumEG CP MP (.oper "mod" a b)
-  | group (a : Ast) : NumEG CP MP a → NumEG CP MP (.group a)
-  | floor (pfx : String) (a : Ast) : NumEG CP MP a → NumEG CP MP (.call "floor" pfx (.acons a .anil))
-  | ceiling (pfx : String) (a : Ast) : NumEG CP MP a → NumEG CP MP (.call "ceiling" pfx (.acons a .anil))
-  | number (pfx : String) (a : Ast) : NumEG CP MP a → NumEG CP MP (.call "number" pfx (.acons a .anil))
-  | numberStr (pfx s : String) : NumEG CP MP (.call "number" pfx (.acons (.str s) .anil))
-  | strlenStr (pfx s : String) : NumEG CP MP (.call "string-length" pfx (.acons (.str s) .anil))
-  | count (pfx : String) (p : Ast) : CP p → NumEG CP MP (.call "count" pfx (.acons p .anil))
+/-- Arithmetic expressions.  `CP p` says which `count(p)` arguments are admitted, `SP p` which
+`sum(p)` arguments, `MP a b` which `a mod b` (the oracle speaks for `mod` and for `sum` only on a
+sub-domain, `count` needs the *length* of the node list and `sum` the node *list*); all three are
+discharged by the instances below. -/
+inductive NumEG (CP SP : Ast → Prop) (MP : Ast → Ast → Prop) : Ast → Prop
+  | num (l : String) : NumEG CP SP MP (.num l)
+  | arith (op : String) (a b : Ast) : op ∈ arithOps → NumEG CP SP MP a → NumEG CP SP MP b →
+      NumEG CP SP MP (.oper op a b)
+  | mod (a b : Ast) : NumEG CP SP MP a → NumEG CP SP MP b → MP a b → NumEG CP SP MP (.oper "mod" a b)
+  | group (a : Ast) : NumEG CP SP MP a → NumEG CP SP MP (.group a)
+  | floor (pfx : String) (a : Ast) : NumEG CP SP MP a → NumEG CP SP MP (.call "floor" pfx (.acons a .anil))
+  | ceiling (pfx : String) (a : Ast) : NumEG CP SP MP a → NumEG CP SP MP (.call "ceiling" pfx (.acons a .anil))
+  | number (pfx : String) (a : Ast) : NumEG CP SP MP a → NumEG CP SP MP (.call "number" pfx (.acons a .anil))
+  | numberStr (pfx s : String) : NumEG CP SP MP (.call "number" pfx (.acons (.str s) .anil))
+  | strlenStr (pfx s : String) : NumEG CP SP MP (.call "string-length" pfx (.acons (.str s) .anil))
+  | count (pfx : String) (p : Ast) : CP p → NumEG CP SP MP (.call "count" pfx (.acons p .anil))
+  | sum (pfx : String) (p : Ast) : SP p → NumEG CP SP MP (.call "sum" pfx (.acons p .anil))
 
 /-- what the main theorem needs of an admitted `count` argument: both sides yield node lists of
 the same length -/
@@ -283,14 +346,25 @@ def ModOK (d : Doc) (ctx : Spec.Ctx) (F : Type) [NumAlg F] (MP : Ast → Ast →
   ∀ a b, MP a b → ∀ (x y : F) ga gb, Spec.eval (F := F) d a ctx = .ok (.val (.num x) ga) →
     Spec.eval (F := F) d b ctx = .ok (.val (.num y) gb) → (Spec.modSpec x y).isSome = true
 
+/-- what the main theorem needs of an admitted `sum` argument: both sides yield the *same node
+list* (the additions are done in list order and `add` is not assumed associative or commutative),
+and every node of it is numeric — the domain on which the oracle's `sum` speaks -/
+def SumOK (d : Doc) (cfg : ECfg) (regexOk : RegexOk) (limit : Nat) (snt sdf : Bool)
+    (ctx : Spec.Ctx) (F : Type) [NumAlg F] (SP : Ast → Prop) : Prop :=
+  ∀ p, SP p → ∀ st o, build regexOk limit snt sdf p {} st = .ok o →
+    ∃ ns g, evalP (F := F) d cfg o.q ctx.node = .ok (.nodes ns) ∧
+      Spec.eval (F := F) d p ctx = .ok (.val (.nodes ns) g) ∧
+      ns.any (fun r => isNaN (Spec.strToNum (F := F) (stringValue d r))) = false
+
 section Main
 variable (d : Doc) (cfg : ECfg) (regexOk : RegexOk) (limit : Nat) (snt sdf : Bool) (ctx : Spec.Ctx)
-variable {CP : Ast → Prop} {MP : Ast → Ast → Prop}
+variable {CP SP : Ast → Prop} {MP : Ast → Ast → Prop}
 
 /-- **C08, expression level**: for an arithmetic expression of any depth, the plan the builder makes
 evaluates to a number, the oracle evaluates the expression to a number, and it is the same `x : F`. -/
-theorem numEG_sem (hC : CountOK d cfg regexOk limit snt sdf ctx F CP) (hM : ModOK d ctx F MP)
-    {e : Ast} (he : NumEG CP MP e) :
+theorem numEG_sem (hC : CountOK d cfg regexOk limit snt sdf ctx F CP)
+    (hS : SumOK d cfg regexOk limit snt sdf ctx F SP) (hM : ModOK d ctx F MP)
+    {e : Ast} (he : NumEG CP SP MP e) :
     ∀ (fl : Flags) (st : BState) (o : BOut), build regexOk limit snt sdf e fl st = .ok o →
       ∃ x : F, evalP (F := F) d cfg o.q ctx.node = .ok (.num x) ∧
         Spec.eval (F := F) d e ctx = .ok (.val (.num x) none) := by
@@ -377,6 +451,15 @@ theorem numEG_sem (hC : CountOK d cfg regexOk limit snt sdf ctx F CP) (hM : ModO
     refine ⟨ofNat l.length, ?_, ?_⟩
     · rw [hq, evalP_func1 d cfg _ _ _ _ (by decide), h1, callFn_count_nodes]
     · rw [eval_call1 d _ _ _ _ _ _ h2, spec_count, hlen]; rfl
+  | sum pfx p hp =>
+    intro fl st o hb
+    obtain ⟨st', ao, hao, hq⟩ := build_call1 _ _ _ _ "sum" pfx p 1 none false rfl (Nat.le_refl _)
+      (fun _ h => by cases h) rfl (by decide) (by decide) (by decide) (by decide) fl st o hb
+    obtain ⟨ns, g, h1, h2, hnum⟩ := hS p hp _ _ hao
+    refine ⟨Spec.sumNodes d ns, ?_, ?_⟩
+    · rw [hq, evalP_func1 d cfg _ _ _ _ (by decide), h1, callFn_sum_nodes,
+        sum_skip_eq_sumNodes d ns hnum]
+    · rw [eval_call1 d _ _ _ _ _ _ h2, spec_sum d ctx ns hnum]; rfl
 
 end Main
 
@@ -528,11 +611,188 @@ theorem countOK_flat {d : Doc} (wf : WF d) (cfg : ECfg) (hns : cfg.nsIface = tru
       · exact docOrder_nodup d _
       · exact flat_nodup (F := F) wf cfg c hflat out hsel
 
+/-! ## `sum` over flat paths: the *same node list* on both sides -/
+
+/-! strictly increasing sequences of references (kept in a namespace of their own: the same facts
+are proved again, later in the import order, in `FlatFiltered`) -/
+namespace RefOrd
+
+theorem lt_asymm (a b : Ref) (h : Ref.lt a b = true) : Ref.lt b a = false := by
+  cases h' : Ref.lt b a with
+  | false => rfl
+  | true => rw [ref_lt_iff] at h h'; omega
+
+/-- two strictly increasing sequences with the same members are the same sequence -/
+theorem sorted_ext : ∀ (l₁ l₂ : List Ref), l₁.Pairwise (fun a b => Ref.lt a b = true) →
+    l₂.Pairwise (fun a b => Ref.lt a b = true) → (∀ x, x ∈ l₁ ↔ x ∈ l₂) → l₁ = l₂
+  | [], [], _, _, _ => rfl
+  | [], b :: t, _, _, h => absurd ((h b).2 List.mem_cons_self) (by simp)
+  | a :: t, [], _, _, h => absurd ((h a).1 List.mem_cons_self) (by simp)
+  | a :: t₁, b :: t₂, h₁, h₂, h => by
+    rw [List.pairwise_cons] at h₁ h₂
+    have hab : a = b := by
+      rcases List.mem_cons.1 ((h a).1 List.mem_cons_self) with e | ha
+      · exact e
+      · rcases List.mem_cons.1 ((h b).2 List.mem_cons_self) with e | hb
+        · exact e.symm
+        · have := lt_asymm _ _ (h₂.1 a ha)
+          rw [h₁.1 b hb] at this
+          cases this
+    subst hab
+    have ht : ∀ x, x ∈ t₁ ↔ x ∈ t₂ := by
+      intro x
+      constructor
+      · intro hx
+        rcases List.mem_cons.1 ((h x).1 (List.mem_cons_of_mem _ hx)) with e | hx'
+        · subst e
+          have := h₁.1 x hx
+          rw [ref_lt_irrefl] at this; cases this
+        · exact hx'
+      · intro hx
+        rcases List.mem_cons.1 ((h x).2 (List.mem_cons_of_mem _ hx)) with e | hx'
+        · subst e
+          have := h₂.1 x hx
+          rw [ref_lt_irrefl] at this; cases this
+        · exact hx'
+    rw [sorted_ext t₁ t₂ h₁.2 h₂.2 ht]
+
+theorem allRefs_sorted (d : Doc) : (allRefs d).Pairwise (fun a b => Ref.lt a b = true) := by
+  unfold allRefs
+  rw [List.pairwise_flatMap]
+  constructor
+  · intro i _
+    rw [List.pairwise_cons]
+    constructor
+    · intro x hx
+      simp only [attrsOf, List.mem_map] at hx
+      obtain ⟨k, _, rfl⟩ := hx
+      rw [ref_lt_iff]; right; exact ⟨rfl, Nat.succ_pos _⟩
+    · unfold attrsOf
+      rw [List.pairwise_map]
+      exact List.Pairwise.imp (fun {a b} hab => by
+        rw [ref_lt_iff]; right; exact ⟨rfl, Nat.succ_lt_succ hab⟩) List.pairwise_lt_range
+  · refine List.Pairwise.imp (fun {i j} hij x hx y hy => ?_) List.pairwise_lt_range
+    have hxi : x.ord.1 = i := by
+      simp only [List.mem_cons, attrsOf, List.mem_map] at hx
+      rcases hx with rfl | ⟨k, _, rfl⟩ <;> rfl
+    have hyj : y.ord.1 = j := by
+      simp only [List.mem_cons, attrsOf, List.mem_map] at hy
+      rcases hy with rfl | ⟨k, _, rfl⟩ <;> rfl
+    rw [ref_lt_iff]; omega
+
+theorem docOrder_sorted (d : Doc) (l : List Ref) :
+    (Spec.docOrder d l).Pairwise (fun a b => Ref.lt a b = true) :=
+  List.Pairwise.filter _ (allRefs_sorted d)
+
+end RefOrd
+
+/-- **flat paths, list level**: the node list the engine's `evalP` returns for the plan of a flat
+path *is* the oracle's node list, element by element (C01 gives equal sets; both lists are strictly
+increasing in document order: C12 `flat_sorted` for the engine, `docOrder` for the oracle) -/
+theorem flat_same_list {d : Doc} (wf : WF d) (cfg : ECfg) (hns : cfg.nsIface = true)
+    (hinj : HashInj d cfg) (regexOk : RegexOk) (limit : Nat) (sdf : Bool)
+    (c : Ref) (hc : validRef d c = true) (i n : Nat) {p : Ast} (hp : FlatPath p)
+    (st : BState) (o : BOut) (hb : build regexOk limit true sdf p {} st = .ok o) :
+    ∃ ns g, evalP (F := F) d cfg o.q c = .ok (.nodes ns) ∧
+      Spec.eval (F := F) d p ⟨c, i, n⟩ = .ok (.val (.nodes ns) g) := by
+  obtain ⟨out, ns, g, hsel, hev, hmem⟩ :=
+    C01_main (F := F) wf cfg hns hinj regexOk limit sdf p hp.pathPF st o hb c hc
+  have hflat := build_flat regexOk limit true sdf hp _ _ _ hb
+  have hnsd : ∃ l, ns = Spec.docOrder d l := by
+    cases hp with
+    | step a _ => exact eval_axis_inv d a _ _ ns g hev
+    | cons a inp _ _ => exact eval_axis_inv d a _ _ ns g hev
+  obtain ⟨l', rfl⟩ := hnsd
+  have hsorted : (refs out).Pairwise (fun a b => Ref.lt a b = true) :=
+    flat_sorted (F := F) wf cfg c hflat out hsel
+  have heq : (if cfg.setSemantics then Spec.docOrder d (refs out) else refs out) =
+      Spec.docOrder d l' := by
+    apply RefOrd.sorted_ext _ _ _ (RefOrd.docOrder_sorted d l')
+    · intro x
+      split
+      · rw [mem_docOrder]
+        constructor
+        · intro hx; exact (hmem x).1 hx.1
+        · intro hx; exact ⟨(hmem x).2 hx, ((mem_docOrder d l' x).1 hx).2⟩
+      · exact hmem x
+    · split
+      · exact RefOrd.docOrder_sorted d _
+      · exact hsorted
+  refine ⟨Spec.docOrder d l', g, ?_, ?_⟩
+  · rw [evalP_flat d cfg hflat c out hsel, heq]
+  · rw [eval_pathpf_ctx d hp.pathPF]; exact hev
+
+/-- the side condition under which the oracle speaks for `sum(p)` at `ctx`: its evaluation of
+`sum(p)` succeeds (that is: `p` evaluates, to a node-set, and every node of it is numeric).  The
+prefix of the call plays no role (`sumDom_iff_pfx`). -/
+def SumDom (d : Doc) (ctx : Spec.Ctx) (F : Type) [NumAlg F] (p : Ast) : Prop :=
+  ∃ x : F, Spec.eval (F := F) d (.call "sum" "" (.acons p .anil)) ctx = .ok (.val (.num x) none)
+
+/-- the oracle's value of `sum(p)`, given the value of `p` -/
+theorem eval_sum_of_nodes (d : Doc) (ctx : Spec.Ctx) (pfx : String) (p : Ast) (ns : List Ref)
+    (g : Option (List (List Ref))) (h : Spec.eval (F := F) d p ctx = .ok (.val (.nodes ns) g)) :
+    Spec.eval (F := F) d (.call "sum" pfx (.acons p .anil)) ctx =
+      if ns.any (fun r => isNaN (Spec.strToNum (F := F) (stringValue d r))) = true then
+        .error (.unsupported "sum over non-numeric nodes")
+      else .ok (.val (.num (Spec.sumNodes d ns)) none) := by
+  rw [eval_call1 d _ _ _ _ _ _ h, spec_sum_eq]
+  split <;> rfl
+
+/-- the oracle's evaluation of `sum(p)` does not look at the prefix of the call -/
+theorem eval_sum_pfx (d : Doc) (ctx : Spec.Ctx) (pfx pfx' : String) (p : Ast) :
+    Spec.eval (F := F) d (.call "sum" pfx (.acons p .anil)) ctx =
+      Spec.eval (F := F) d (.call "sum" pfx' (.acons p .anil)) ctx := by
+  rw [Spec.eval, Spec.eval]
+
+theorem sumDom_of_eval (d : Doc) (ctx : Spec.Ctx) (pfx : String) (p : Ast) (x : F)
+    (g : Option (List (List Ref)))
+    (h : Spec.eval (F := F) d (.call "sum" pfx (.acons p .anil)) ctx = .ok (.val (.num x) g)) :
+    SumDom d ctx F p := by
+  have hg : g = none := by
+    rw [Spec.eval] at h
+    obtain ⟨av, _, h⟩ := except_bind_ok _ _ _ h
+    obtain ⟨v, _, h⟩ := except_bind_ok _ _ _ h
+    cases h; rfl
+  subst hg
+  exact ⟨x, by rw [eval_sum_pfx d ctx "" pfx p]; exact h⟩
+
+/-- under `SumDom`, every node the oracle selects for `p` is numeric -/
+theorem sumDom_numeric (d : Doc) (ctx : Spec.Ctx) (p : Ast) (hd : SumDom d ctx F p) (ns : List Ref)
+    (g : Option (List (List Ref))) (h : Spec.eval (F := F) d p ctx = .ok (.val (.nodes ns) g)) :
+    ns.any (fun r => isNaN (Spec.strToNum (F := F) (stringValue d r))) = false := by
+  obtain ⟨x, hx⟩ := hd
+  rw [eval_sum_of_nodes d ctx "" p ns g h] at hx
+  cases hn : ns.any (fun r => isNaN (Spec.strToNum (F := F) (stringValue d r))) with
+  | false => rfl
+  | true => rw [hn] at hx; cases hx
+
+/-- … and conversely -/
+theorem sumDom_of_numeric (d : Doc) (ctx : Spec.Ctx) (p : Ast) (ns : List Ref)
+    (g : Option (List (List Ref))) (h : Spec.eval (F := F) d p ctx = .ok (.val (.nodes ns) g))
+    (hnum : ns.any (fun r => isNaN (Spec.strToNum (F := F) (stringValue d r))) = false) :
+    SumDom d ctx F p :=
+  ⟨Spec.sumNodes d ns, by rw [eval_sum_of_nodes d ctx "" p ns g h, hnum]; rfl⟩
+
+/-- `sum` arguments of the full fragment: flat paths on which the oracle's `sum` speaks -/
+def FlatSum (d : Doc) (ctx : Spec.Ctx) (F : Type) [NumAlg F] (p : Ast) : Prop :=
+  FlatPath p ∧ SumDom d ctx F p
+
+/-- **sum over flat paths**: the engine's node list is the oracle's node list, and (the oracle's
+side condition) every node of it is numeric -/
+theorem sumOK_flat {d : Doc} (wf : WF d) (cfg : ECfg) (hns : cfg.nsIface = true)
+    (hinj : HashInj d cfg) (regexOk : RegexOk) (limit : Nat) (sdf : Bool)
+    (c : Ref) (hc : validRef d c = true) (i n : Nat) :
+    SumOK d cfg regexOk limit true sdf ⟨c, i, n⟩ F (FlatSum d ⟨c, i, n⟩ F) := by
+  intro p hp st o hb
+  obtain ⟨ns, g, h1, h2⟩ :=
+    flat_same_list (F := F) wf cfg hns hinj regexOk limit sdf c hc i n hp.1 st o hb
+  exact ⟨ns, g, h1, h2, sumDom_numeric d _ p hp.2 ns g h2⟩
+
 /-! ## Instances of the fragment -/
 
-theorem NumEG.mono {CP CP' : Ast → Prop} {MP MP' : Ast → Ast → Prop}
-    (hc : ∀ p, CP p → CP' p) (hm : ∀ a b, MP a b → MP' a b) {e : Ast} (h : NumEG CP MP e) :
-    NumEG CP' MP' e := by
+theorem NumEG.mono {CP CP' SP SP' : Ast → Prop} {MP MP' : Ast → Ast → Prop}
+    (hc : ∀ p, CP p → CP' p) (hs : ∀ p, SP p → SP' p) (hm : ∀ a b, MP a b → MP' a b)
+    {e : Ast} (h : NumEG CP SP MP e) : NumEG CP' SP' MP' e := by
   induction h with
   | num l => exact .num l
   | arith op a b hop _ _ iha ihb => exact .arith op a b hop iha ihb
@@ -544,10 +804,11 @@ theorem NumEG.mono {CP CP' : Ast → Prop} {MP MP' : Ast → Ast → Prop}
   | numberStr pfx s => exact .numberStr pfx s
   | strlenStr pfx s => exact .strlenStr pfx s
   | count pfx p hp => exact .count pfx p (hc p hp)
+  | sum pfx p hp => exact .sum pfx p (hs p hp)
 
 /-- the pure fragment: literals, `+ - * div` (hence unary minus, `x * -1`), groups, `floor`,
-`ceiling`, `number`, `number('…')`, `string-length('…')`; no `count`, no `mod` -/
-abbrev NumE : Ast → Prop := NumEG (fun _ => False) (fun _ _ => False)
+`ceiling`, `number`, `number('…')`, `string-length('…')`; no `count`, no `sum`, no `mod` -/
+abbrev NumE : Ast → Prop := NumEG (fun _ => False) (fun _ => False) (fun _ _ => False)
 
 /-- the side condition under which the oracle speaks for `a mod b` at `ctx`: whenever both operands
 evaluate to numbers, `Spec.modSpec` is defined on them (non-negative integral dividend, positive
@@ -566,13 +827,18 @@ theorem countOK_false (d : Doc) (cfg : ECfg) (regexOk : RegexOk) (limit : Nat) (
 theorem modOK_false (d : Doc) (ctx : Spec.Ctx) : ModOK d ctx F (fun _ _ => False) :=
   fun _ _ h => h.elim
 
-/-- the fragment with `mod` (inside the oracle's domain at `ctx`), without `count` -/
-abbrev NumEM (d : Doc) (ctx : Spec.Ctx) (F : Type) [NumAlg F] : Ast → Prop :=
-  NumEG (fun _ => False) (ModDom d ctx F)
+theorem sumOK_false (d : Doc) (cfg : ECfg) (regexOk : RegexOk) (limit : Nat) (snt sdf : Bool)
+    (ctx : Spec.Ctx) : SumOK d cfg regexOk limit snt sdf ctx F (fun _ => False) :=
+  fun _ h => h.elim
 
-/-- the full fragment: `mod` inside the oracle's domain and `count` over flat paths -/
+/-- the fragment with `mod` (inside the oracle's domain at `ctx`), without `count` and `sum` -/
+abbrev NumEM (d : Doc) (ctx : Spec.Ctx) (F : Type) [NumAlg F] : Ast → Prop :=
+  NumEG (fun _ => False) (fun _ => False) (ModDom d ctx F)
+
+/-- the full fragment: `mod` inside the oracle's domain, `count` over flat paths, and `sum` over
+flat paths all of whose selected nodes are numeric (`FlatSum`: the oracle's `sum` succeeds) -/
 abbrev NumEF (d : Doc) (ctx : Spec.Ctx) (F : Type) [NumAlg F] : Ast → Prop :=
-  NumEG FlatPath (ModDom d ctx F)
+  NumEG FlatPath (FlatSum d ctx F) (ModDom d ctx F)
 
 section Corollaries
 variable (d : Doc) (cfg : ECfg) (regexOk : RegexOk) (limit : Nat) (snt sdf : Bool)
@@ -584,7 +850,7 @@ theorem numE_sem {e : Ast} (he : NumE e) (ctx : Spec.Ctx) (fl : Flags) (st : BSt
     ∃ x : F, evalP (F := F) d cfg o.q ctx.node = .ok (.num x) ∧
       Spec.eval (F := F) d e ctx = .ok (.val (.num x) none) :=
   numEG_sem d cfg regexOk limit snt sdf ctx (countOK_false d cfg regexOk limit snt sdf ctx)
-    (modOK_false d ctx) he fl st o hb
+    (sumOK_false d cfg regexOk limit snt sdf ctx) (modOK_false d ctx) he fl st o hb
 
 /-- the statement of the task: flags `{}`, context `⟨c, 1, 1⟩` -/
 theorem numE_sem' {e : Ast} (he : NumE e) (c : Ref) (st : BState) (o : BOut)
@@ -599,7 +865,7 @@ theorem numEM_sem (ctx : Spec.Ctx) {e : Ast} (he : NumEM d ctx F e) (fl : Flags)
     ∃ x : F, evalP (F := F) d cfg o.q ctx.node = .ok (.num x) ∧
       Spec.eval (F := F) d e ctx = .ok (.val (.num x) none) :=
   numEG_sem d cfg regexOk limit snt sdf ctx (countOK_false d cfg regexOk limit snt sdf ctx)
-    (modOK_dom d ctx) he fl st o hb
+    (sumOK_false d cfg regexOk limit snt sdf ctx) (modOK_dom d ctx) he fl st o hb
 
 end Corollaries
 
@@ -613,11 +879,12 @@ theorem numEF_sem {d : Doc} (wf : WF d) (cfg : ECfg) (hns : cfg.nsIface = true)
     ∃ x : F, evalP (F := F) d cfg o.q c = .ok (.num x) ∧
       Spec.eval (F := F) d e ⟨c, i, n⟩ = .ok (.val (.num x) none) :=
   numEG_sem d cfg regexOk limit true sdf ⟨c, i, n⟩
-    (countOK_flat wf cfg hns hinj regexOk limit sdf c hc i n) (modOK_dom d _) he fl st o hb
+    (countOK_flat wf cfg hns hinj regexOk limit sdf c hc i n)
+    (sumOK_flat wf cfg hns hinj regexOk limit sdf c hc i n) (modOK_dom d _) he fl st o hb
 
 /-- unary minus: the parser's `x * -1` is in the fragment -/
-theorem NumEG.neg {CP : Ast → Prop} {MP : Ast → Ast → Prop} {a : Ast} (h : NumEG CP MP a) :
-    NumEG CP MP (.oper "*" a (.num "-1")) :=
+theorem NumEG.neg {CP SP : Ast → Prop} {MP : Ast → Ast → Prop} {a : Ast} (h : NumEG CP SP MP a) :
+    NumEG CP SP MP (.oper "*" a (.num "-1")) :=
   .arith "*" a (.num "-1") (by decide) h (.num "-1")
 
 /-! ## `string()` of a number -/
@@ -625,9 +892,10 @@ theorem NumEG.neg {CP : Ast → Prop} {MP : Ast → Ast → Prop} {a : Ast} (h :
 /-- `string(e)` for an arithmetic `e`: both sides render the *same* number with the *same*
 `Spec.numToStr` -/
 theorem string_of_numEG_sem (d : Doc) (cfg : ECfg) (regexOk : RegexOk) (limit : Nat) (snt sdf : Bool)
-    (ctx : Spec.Ctx) {CP : Ast → Prop} {MP : Ast → Ast → Prop}
-    (hC : CountOK d cfg regexOk limit snt sdf ctx F CP) (hM : ModOK d ctx F MP)
-    {a : Ast} (ha : NumEG CP MP a) (pfx : String) (fl : Flags) (st : BState) (o : BOut)
+    (ctx : Spec.Ctx) {CP SP : Ast → Prop} {MP : Ast → Ast → Prop}
+    (hC : CountOK d cfg regexOk limit snt sdf ctx F CP)
+    (hS : SumOK d cfg regexOk limit snt sdf ctx F SP) (hM : ModOK d ctx F MP)
+    {a : Ast} (ha : NumEG CP SP MP a) (pfx : String) (fl : Flags) (st : BState) (o : BOut)
     (hb : build regexOk limit snt sdf (.call "string" pfx (.acons a .anil)) fl st = .ok o) :
     ∃ x : F, Spec.eval (F := F) d a ctx = .ok (.val (.num x) none) ∧
       evalP (F := F) d cfg o.q ctx.node = .ok (.str (Spec.numToStr x)) ∧
@@ -635,7 +903,7 @@ theorem string_of_numEG_sem (d : Doc) (cfg : ECfg) (regexOk : RegexOk) (limit : 
         .ok (.val (.str (Spec.numToStr x)) none) := by
   obtain ⟨st', ao, hao, hq⟩ := build_call1 _ _ _ _ "string" pfx a 0 (some 1) false rfl (Nat.zero_le _)
     (fun m h => by cases h; exact Nat.le_refl _) rfl (by decide) (by decide) (by decide) (by decide) fl st o hb
-  obtain ⟨x, hx1, hx2⟩ := numEG_sem d cfg regexOk limit snt sdf ctx hC hM ha _ _ _ hao
+  obtain ⟨x, hx1, hx2⟩ := numEG_sem d cfg regexOk limit snt sdf ctx hC hS hM ha _ _ _ hao
   refine ⟨x, hx2, ?_, ?_⟩
   · rw [hq, evalP_func1 d cfg _ _ _ _ (by decide), hx1, callFn_string_num]
   · rw [eval_call1 d _ _ _ _ _ _ hx2, spec_string]; rfl
@@ -648,16 +916,17 @@ theorem string_of_numE_sem (d : Doc) (cfg : ECfg) (regexOk : RegexOk) (limit : N
       Spec.eval (F := F) d (.call "string" pfx (.acons a .anil)) ctx =
         .ok (.val (.str (Spec.numToStr x)) none) :=
   string_of_numEG_sem d cfg regexOk limit snt sdf ctx (countOK_false d cfg regexOk limit snt sdf ctx)
-    (modOK_false d ctx) ha pfx fl st o hb
+    (sumOK_false d cfg regexOk limit snt sdf ctx) (modOK_false d ctx) ha pfx fl st o hb
 
 /-! ## NaN (and ±∞) propagation is `F`'s: the two sides agree on it -/
 
 /-- the value of `a op b` is, on both sides, `f x y` for the values `x`, `y` of the operands and the
 one `NumAlg` operation `f` the operator denotes -/
 theorem numEG_oper_value (d : Doc) (cfg : ECfg) (regexOk : RegexOk) (limit : Nat) (snt sdf : Bool)
-    (ctx : Spec.Ctx) {CP : Ast → Prop} {MP : Ast → Ast → Prop}
-    (hC : CountOK d cfg regexOk limit snt sdf ctx F CP) (hM : ModOK d ctx F MP)
-    {op : String} (hop : op ∈ arithOps) {a b : Ast} (ha : NumEG CP MP a) (hb : NumEG CP MP b)
+    (ctx : Spec.Ctx) {CP SP : Ast → Prop} {MP : Ast → Ast → Prop}
+    (hC : CountOK d cfg regexOk limit snt sdf ctx F CP)
+    (hS : SumOK d cfg regexOk limit snt sdf ctx F SP) (hM : ModOK d ctx F MP)
+    {op : String} (hop : op ∈ arithOps) {a b : Ast} (ha : NumEG CP SP MP a) (hb : NumEG CP SP MP b)
     (fl : Flags) (st : BState) (o : BOut)
     (hbuild : build regexOk limit snt sdf (.oper op a b) fl st = .ok o) :
     ∃ (f : F → F → F) (x y : F), opFn (F := F) op = some f ∧
@@ -670,8 +939,8 @@ theorem numEG_oper_value (d : Doc) (cfg : ECfg) (regexOk : RegexOk) (limit : Nat
     simp only [numOps, List.mem_cons, List.not_mem_nil, or_false]
     rcases hop with h | h | h | h <;> simp [h]
   obtain ⟨st', lo, ro, hlo, hro, hq⟩ := build_oper _ _ _ _ op hop' a b fl st o hbuild
-  obtain ⟨x, hx1, hx2⟩ := numEG_sem d cfg regexOk limit snt sdf ctx hC hM ha _ _ _ hlo
-  obtain ⟨y, hy1, hy2⟩ := numEG_sem d cfg regexOk limit snt sdf ctx hC hM hb _ _ _ hro
+  obtain ⟨x, hx1, hx2⟩ := numEG_sem d cfg regexOk limit snt sdf ctx hC hS hM ha _ _ _ hlo
+  obtain ⟨y, hy1, hy2⟩ := numEG_sem d cfg regexOk limit snt sdf ctx hC hS hM hb _ _ _ hro
   obtain ⟨f, hf, hev⟩ := evalP_numeric d cfg op hop' lo.q ro.q ctx.node x y hx1 hy1
   obtain ⟨f', hf', hev'⟩ := eval_arith d op hop a b ctx x y _ _ hx2 hy2
   rw [hf] at hf'; cases hf'
@@ -689,7 +958,8 @@ theorem numE_nan_left (d : Doc) (cfg : ECfg) (regexOk : RegexOk) (limit : Nat) (
       evalP (F := F) d cfg o.q ctx.node = .ok (.num (f nan y)) ∧
       Spec.eval (F := F) d (.oper op a b) ctx = .ok (.val (.num (f nan y)) none) := by
   obtain ⟨f, x, y, hf, hx, _, h1, h2⟩ := numEG_oper_value (F := F) d cfg regexOk limit snt sdf ctx
-    (countOK_false d cfg regexOk limit snt sdf ctx) (modOK_false d ctx) hop ha hb fl st o hbuild
+    (countOK_false d cfg regexOk limit snt sdf ctx) (sumOK_false d cfg regexOk limit snt sdf ctx)
+    (modOK_false d ctx) hop ha hb fl st o hbuild
   rw [hnan] at hx
   cases hx
   exact ⟨f, y, hf, h1, h2⟩
@@ -703,7 +973,8 @@ theorem numE_nan_right (d : Doc) (cfg : ECfg) (regexOk : RegexOk) (limit : Nat) 
       evalP (F := F) d cfg o.q ctx.node = .ok (.num (f x nan)) ∧
       Spec.eval (F := F) d (.oper op a b) ctx = .ok (.val (.num (f x nan)) none) := by
   obtain ⟨f, x, y, hf, _, hy, h1, h2⟩ := numEG_oper_value (F := F) d cfg regexOk limit snt sdf ctx
-    (countOK_false d cfg regexOk limit snt sdf ctx) (modOK_false d ctx) hop ha hb fl st o hbuild
+    (countOK_false d cfg regexOk limit snt sdf ctx) (sumOK_false d cfg regexOk limit snt sdf ctx)
+    (modOK_false d ctx) hop ha hb fl st o hbuild
   rw [hnan] at hy
   cases hy
   exact ⟨f, x, hf, h1, h2⟩
@@ -737,6 +1008,71 @@ theorem numEF_evaluate {d : Doc} (wf : WF d) (cfg : ECfg) (hns : cfg.nsIface = t
   obtain ⟨x, h1, h2⟩ := numEF_sem (F := F) wf cfg hns hinj regexOk limit sdf c hc 1 1 he {} st o hb
   exact ⟨x, evaluate_of_num d cfg _ c x h1, evalTop_of_num d e c x _ h2⟩
 
+/-! ## `sum(P)` on its own -/
+
+/-- **`sum(P)` over a flat path, engine side, unconditionally**: the plan the builder makes of
+`sum(P)` evaluates to the fold of Go's `sum` callback (skip what does not parse) over *the oracle's
+node list* of `P` -/
+theorem sum_flat_model {d : Doc} (wf : WF d) (cfg : ECfg) (hns : cfg.nsIface = true)
+    (hinj : HashInj d cfg) (regexOk : RegexOk) (limit : Nat) (sdf : Bool)
+    (c : Ref) (hc : validRef d c = true) (i n : Nat) {p : Ast} (hp : FlatPath p) (pfx : String)
+    (fl : Flags) (st : BState) (o : BOut)
+    (hb : build regexOk limit true sdf (.call "sum" pfx (.acons p .anil)) fl st = .ok o) :
+    ∃ ns g, Spec.eval (F := F) d p ⟨c, i, n⟩ = .ok (.val (.nodes ns) g) ∧
+      evalP (F := F) d cfg o.q c = .ok (.num (ns.foldl (fun acc r =>
+        if isNaN (Spec.strToNum (F := F) (stringValue d r)) = true then acc
+        else add acc (Spec.strToNum (stringValue d r))) (ofNat 0))) := by
+  obtain ⟨st', ao, hao, hq⟩ := build_call1 _ _ _ _ "sum" pfx p 1 none false rfl (Nat.le_refl _)
+    (fun _ h => by cases h) rfl (by decide) (by decide) (by decide) (by decide) fl st o hb
+  obtain ⟨ns, g, h1, h2⟩ :=
+    flat_same_list (F := F) wf cfg hns hinj regexOk limit sdf c hc i n hp _ _ hao
+  refine ⟨ns, g, h2, ?_⟩
+  rw [hq, evalP_func1 d cfg _ _ _ _ (by decide), h1, callFn_sum_nodes]
+  rfl
+
+/-- **C08, `sum(P)` over a flat path**: if the oracle evaluates `sum(P)` to the number `x` (so:
+every node `P` selects is numeric), the plan the builder makes of `sum(P)` evaluates to `x` -/
+theorem sum_flat_sem {d : Doc} (wf : WF d) (cfg : ECfg) (hns : cfg.nsIface = true)
+    (hinj : HashInj d cfg) (regexOk : RegexOk) (limit : Nat) (sdf : Bool)
+    (c : Ref) (hc : validRef d c = true) (i n : Nat) {p : Ast} (hp : FlatPath p) (pfx : String)
+    (x : F) (g : Option (List (List Ref)))
+    (hx : Spec.eval (F := F) d (.call "sum" pfx (.acons p .anil)) ⟨c, i, n⟩ = .ok (.val (.num x) g))
+    (fl : Flags) (st : BState) (o : BOut)
+    (hb : build regexOk limit true sdf (.call "sum" pfx (.acons p .anil)) fl st = .ok o) :
+    evalP (F := F) d cfg o.q c = .ok (.num x) := by
+  have he : NumEF d ⟨c, i, n⟩ F (.call "sum" pfx (.acons p .anil)) :=
+    .sum pfx p ⟨hp, sumDom_of_eval d _ pfx p x g hx⟩
+  obtain ⟨y, h1, h2⟩ := numEF_sem (F := F) wf cfg hns hinj regexOk limit sdf c hc i n he fl st o hb
+  rw [hx] at h2
+  cases h2
+  exact h1
+
+theorem evalTop_num_inv_call (d : Doc) (name pfx : String) (args : Ast) (c : Ref) (x : F)
+    (h : Spec.evalTop (F := F) d (.call name pfx args) c = .ok (.num x)) :
+    Spec.eval (F := F) d (.call name pfx args) ⟨c, 1, 1⟩ = .ok (.val (.num x) none) := by
+  unfold Spec.evalTop at h
+  obtain ⟨v, hv, h⟩ := except_bind_ok _ _ _ h
+  rw [hv]
+  rw [Spec.eval] at hv
+  obtain ⟨av, _, hv⟩ := except_bind_ok _ _ _ hv
+  obtain ⟨w, _, hv⟩ := except_bind_ok _ _ _ hv
+  cases hv
+  simp only [pure, Except.pure, Spec.Res.value, Except.ok.injEq] at h
+  rw [h]
+
+/-- … at the public API: whenever the oracle's top-level evaluation of `sum(P)` is a number,
+`Expr.Evaluate` on the built plan returns that number -/
+theorem sum_flat_evaluate {d : Doc} (wf : WF d) (cfg : ECfg) (hns : cfg.nsIface = true)
+    (hinj : HashInj d cfg) (regexOk : RegexOk) (limit : Nat) (sdf : Bool)
+    (c : Ref) (hc : validRef d c = true) {p : Ast} (hp : FlatPath p) (pfx : String) (x : F)
+    (hx : Spec.evalTop (F := F) d (.call "sum" pfx (.acons p .anil)) c = .ok (.num x))
+    (st : BState) (o : BOut)
+    (hb : build regexOk limit true sdf (.call "sum" pfx (.acons p .anil)) {} st = .ok o) :
+    evaluate (F := F) d cfg o.q c = .ok (.num x) :=
+  evaluate_of_num d cfg _ c x
+    (sum_flat_sem wf cfg hns hinj regexOk limit sdf c hc 1 1 hp pfx x none
+      (evalTop_num_inv_call d _ _ _ c x hx) {} st o hb)
+
 /-! ## Non-vacuity: parser-shaped members of the fragment that the builder accepts -/
 section Examples
 
@@ -758,6 +1094,148 @@ example (d : Doc) (ctx : Spec.Ctx) (F : Type) [NumAlg F] : NumEF d ctx F exC :=
 example : ∃ o, build (fun _ => true) 100 true false exC {} {} = .ok o := ⟨_, rfl⟩
 
 end Examples
+
+/-! ## `sum`: the oracle-side hypothesis is satisfiable; what happens outside it -/
+section SumExamples
+private def aB' : AxisInfo := ⟨"attribute", .attr, "", "b", "", false, ""⟩
+private def cA' : AxisInfo := ⟨"child", .elem, "", "a", "", false, ""⟩
+/-- `a/@b` as the parser produces it -/
+private def exP : Ast := .axis aB' (.axis cA' .none)
+private theorem exP_flat : FlatPath exP := .cons aB' _ (by decide) (.step cA' (by decide))
+/-- `sum(a/@b) div count(a/@b) + 1` as the parser produces it -/
+private def exAvg : Ast :=
+  .oper "+" (.oper "div" (.call "sum" "" (.acons exP .anil)) (.call "count" "" (.acons exP .anil)))
+    (.num "1")
+/-- `<r><a b="1"/><a b="2.5"/></r>` -/
+private def exDoc : Doc :=
+  [⟨0, .root, "", "", "", "", []⟩, ⟨1, .elem, "", "r", "", "", []⟩,
+   ⟨2, .elem, "", "a", "", "", [⟨"", "b", "", "1"⟩]⟩, ⟨2, .elem, "", "a", "", "", [⟨"", "b", "", "2.5"⟩]⟩]
+/-- `<r><a b="1"/><a b="x"/></r>` -/
+private def exDocX : Doc :=
+  [⟨0, .root, "", "", "", "", []⟩, ⟨1, .elem, "", "r", "", "", []⟩,
+   ⟨2, .elem, "", "a", "", "", [⟨"", "b", "", "1"⟩]⟩, ⟨2, .elem, "", "a", "", "", [⟨"", "b", "", "x"⟩]⟩]
+
+private theorem exDoc_nodes : Spec.eval (F := F) exDoc exP ⟨.node 1, 1, 1⟩ =
+    .ok (.val (.nodes [.attr 2 0, .attr 3 0]) (some [[.attr 2 0], [.attr 3 0]])) := rfl
+private theorem exDocX_nodes : Spec.eval (F := F) exDocX exP ⟨.node 1, 1, 1⟩ =
+    .ok (.val (.nodes [.attr 2 0, .attr 3 0]) (some [[.attr 2 0], [.attr 3 0]])) := rfl
+
+
+private theorem lt4 {P : Nat → Prop} (h : P 0 ∧ P 1 ∧ P 2 ∧ P 3) : ∀ i, i < 4 → P i := by
+  intro i hi
+  obtain ⟨h0, h1, h2, h3⟩ := h
+  match i, hi with
+  | 0, _ => exact h0
+  | 1, _ => exact h1
+  | 2, _ => exact h2
+  | 3, _ => exact h3
+
+private theorem exDoc_wf : WF exDoc where
+  pos := by decide
+  root := by decide
+  step := fun i hi => lt4 (P := fun i => i + 1 < exDoc.length →
+      1 ≤ dep exDoc (i+1) ∧ dep exDoc (i+1) ≤ dep exDoc i + 1)
+    (by decide) i (by simp [exDoc] at hi; omega) hi
+  nonroot := fun i h0 hi => lt4 (P := fun i => 0 < i → kindAt exDoc i ≠ .root) (by decide) i hi h0
+  leaf := fun i hi => lt4 (P := fun i => i + 1 < exDoc.length →
+      (kindAt exDoc i = .text ∨ kindAt exDoc i = .comment) → dep exDoc (i+1) ≤ dep exDoc i)
+    (by decide) i (by simp [exDoc] at hi; omega) hi
+  attrs := fun i hi => lt4 (P := fun i => kindAt exDoc i ≠ .elem → (recAt exDoc i).attrs = [])
+    (by decide) i hi
+
+private theorem exDocX_wf : WF exDocX where
+  pos := by decide
+  root := by decide
+  step := fun i hi => lt4 (P := fun i => i + 1 < exDocX.length →
+      1 ≤ dep exDocX (i+1) ∧ dep exDocX (i+1) ≤ dep exDocX i + 1)
+    (by decide) i (by simp [exDocX] at hi; omega) hi
+  nonroot := fun i h0 hi => lt4 (P := fun i => 0 < i → kindAt exDocX i ≠ .root) (by decide) i hi h0
+  leaf := fun i hi => lt4 (P := fun i => i + 1 < exDocX.length →
+      (kindAt exDocX i = .text ∨ kindAt exDocX i = .comment) → dep exDocX (i+1) ≤ dep exDocX i)
+    (by decide) i (by simp [exDocX] at hi; omega) hi
+  attrs := fun i hi => lt4 (P := fun i => kindAt exDocX i ≠ .elem → (recAt exDocX i).attrs = [])
+    (by decide) i hi
+
+private theorem exDoc_flatSum (h1 : isNaN (ofDecimal false 1 0 : F) = false)
+    (h2 : isNaN (ofDecimal false 25 (-1) : F) = false) : FlatSum exDoc ⟨.node 1, 1, 1⟩ F exP := by
+  refine ⟨exP_flat, sumDom_of_numeric exDoc _ exP _ _ exDoc_nodes ?_⟩
+  show (isNaN (ofDecimal false 1 0 : F) || (isNaN (ofDecimal false 25 (-1) : F) || false)) = false
+  rw [h1, h2]; rfl
+
+/-- **the side condition is satisfiable**: on `<r><a b="1"/><a b="2.5"/></r>`, from `r`, the oracle
+evaluates `sum(a/@b)` — to `(0 + 1) + 2.5` — in every number algebra in which the decimal numerals
+`1` and `2.5` are not NaN -/
+example (h1 : isNaN (ofDecimal false 1 0 : F) = false) (h2 : isNaN (ofDecimal false 25 (-1) : F) = false) :
+    Spec.eval (F := F) exDoc (.call "sum" "" (.acons exP .anil)) ⟨.node 1, 1, 1⟩ =
+      .ok (.val (.num (add (add (ofNat 0) (ofDecimal false 1 0)) (ofDecimal false 25 (-1)))) none) := by
+  have hnum : [Ref.attr 2 0, Ref.attr 3 0].any
+      (fun r => isNaN (Spec.strToNum (F := F) (stringValue exDoc r))) = false := by
+    show (isNaN (ofDecimal false 1 0 : F) || (isNaN (ofDecimal false 25 (-1) : F) || false)) = false
+    rw [h1, h2]; rfl
+  rw [eval_sum_of_nodes exDoc _ "" exP _ _ exDoc_nodes, hnum]
+  rfl
+
+example (h1 : isNaN (ofDecimal false 1 0 : F) = false) (h2 : isNaN (ofDecimal false 25 (-1) : F) = false) :
+    FlatSum exDoc ⟨.node 1, 1, 1⟩ F exP := exDoc_flatSum h1 h2
+
+private theorem exAvg_numEF (h1 : isNaN (ofDecimal false 1 0 : F) = false)
+    (h2 : isNaN (ofDecimal false 25 (-1) : F) = false) : NumEF exDoc ⟨.node 1, 1, 1⟩ F exAvg :=
+  .arith "+" _ _ (by decide)
+    (.arith "div" _ _ (by decide) (.sum "" exP (exDoc_flatSum h1 h2)) (.count "" exP exP_flat)) (.num "1")
+
+/-- … hence `sum(a/@b) div count(a/@b) + 1` is in the full fragment there, the builder accepts it,
+and `numEF_evaluate` applies: `Evaluate` returns the oracle's number -/
+example (h1 : isNaN (ofDecimal false 1 0 : F) = false) (h2 : isNaN (ofDecimal false 25 (-1) : F) = false) :
+    NumEF exDoc ⟨.node 1, 1, 1⟩ F exAvg := exAvg_numEF h1 h2
+example (cfg : ECfg) (hns : cfg.nsIface = true) (hinj : HashInj exDoc cfg)
+    (h1 : isNaN (ofDecimal false 1 0 : F) = false) (h2 : isNaN (ofDecimal false 25 (-1) : F) = false)
+    (o : BOut) (hb : build (fun _ => true) 100 true false exAvg {} {} = .ok o) :
+    ∃ x : F, evaluate (F := F) exDoc cfg o.q (.node 1) = .ok (.num x) ∧
+      Spec.evalTop (F := F) exDoc exAvg (.node 1) = .ok (.num x) :=
+  numEF_evaluate exDoc_wf cfg hns hinj (fun _ => true) 100 false (.node 1) (by decide)
+    (exAvg_numEF h1 h2) {} o hb
+example : ∃ o, build (fun _ => true) 100 true false exAvg {} {} = .ok o := ⟨_, rfl⟩
+
+/-- **outside the property**: on `<r><a b="1"/><a b="x"/></r>` the second node is not numeric
+(`number('x')` is NaN); the oracle does not speak (`unsupported`), so the hypothesis of
+`sum_flat_sem`/`FlatSum` fails there … -/
+example (hn : isNaN (nan : F) = true) :
+    Spec.eval (F := F) exDocX (.call "sum" "" (.acons exP .anil)) ⟨.node 1, 1, 1⟩ =
+      .error (.unsupported "sum over non-numeric nodes") := by
+  have hnum : [Ref.attr 2 0, Ref.attr 3 0].any
+      (fun r => isNaN (Spec.strToNum (F := F) (stringValue exDocX r))) = true := by
+    show (isNaN (ofDecimal false 1 0 : F) || (isNaN (nan : F) || false)) = true
+    rw [hn]; simp
+  rw [eval_sum_of_nodes exDocX _ "" exP _ _ exDocX_nodes, hnum]
+  rfl
+
+example (hn : isNaN (nan : F) = true) : ¬ FlatSum exDocX ⟨.node 1, 1, 1⟩ F exP := by
+  intro h
+  have := sumDom_numeric exDocX _ exP h.2 _ _ exDocX_nodes
+  have hnum : [Ref.attr 2 0, Ref.attr 3 0].any
+      (fun r => isNaN (Spec.strToNum (F := F) (stringValue exDocX r))) = true := by
+    show (isNaN (ofDecimal false 1 0 : F) || (isNaN (nan : F) || false)) = true
+    rw [hn]; simp
+  rw [hnum] at this; cases this
+
+/-- … while the engine (Go's `sum` callback) silently skips the node and answers `0 + 1`
+(`sum_flat_model` applied to this document) -/
+example (cfg : ECfg) (hns : cfg.nsIface = true) (hinj : HashInj exDocX cfg)
+    (h1 : isNaN (ofDecimal false 1 0 : F) = false) (hn : isNaN (nan : F) = true)
+    (o : BOut) (hb : build (fun _ => true) 100 true false (.call "sum" "" (.acons exP .anil)) {} {} = .ok o) :
+    evalP (F := F) exDocX cfg o.q (.node 1) = .ok (.num (add (ofNat 0) (ofDecimal false 1 0))) := by
+  obtain ⟨ns, g, h, hev⟩ := sum_flat_model (F := F) exDocX_wf cfg hns hinj (fun _ => true) 100 false (.node 1)
+    (by decide) 1 1 exP_flat "" {} {} o hb
+  rw [exDocX_nodes] at h
+  cases h
+  rw [hev]
+  show Except.ok (MVal.num (if isNaN (nan : F) = true then
+      (if isNaN (ofDecimal false 1 0 : F) = true then ofNat 0 else add (ofNat 0) (ofDecimal false 1 0))
+    else add (if isNaN (ofDecimal false 1 0 : F) = true then ofNat 0 else add (ofNat 0) (ofDecimal false 1 0)) nan)) = _
+  rw [hn, h1]
+  rfl
+
+end SumExamples
 
 end XPathV.ArithSem
 
